@@ -7,5 +7,7 @@ fn main() {
     p.extend(f2::dyn_peers());
     e.extend(f3::entries());
     p.extend(f3::dyn_peers());
+    e.extend(f5::entries());
+    p.extend(f5::dyn_peers());
     simcore::cli::main(e, p, simcore::profiles)
 }
